@@ -26,6 +26,11 @@ def add(id, props, what, match, witness, status="open", **kw):
 
 PRIM_ALL = ["C01", "C02", "C04", "C05", "C07", "C09", "C15"]
 
+add("KF-sign-complex", ["C14"],
+    "np.sign is registered as non-differentiable (piecewise constant), which holds for real input; for complex input NumPy >= 2 returns z/|z|, which varies smoothly, so the derivative of anything built on sign(z) is silently zero. A repair needs a dtype-dependent wrapper (sign must stay an untraced plain value for real input, as the property lists it) plus a new VJP/JVP pair - recorded, not fixed",
+    {"engine": "values", "family": "nograd_constancy", "fn": "sign", "template": {"__re__": ".*c$"}, "symptom": ["not_locally_constant"]},
+    {"kind": "nograd_constancy", "fn": "sign", "template": "uc"})
+
 # C06
 from vf.common import enc  # noqa
 
